@@ -73,6 +73,13 @@ func NewResponseFilterWriter(filters []ResponseFilter, gz *gzipResponseWriter) *
 // WriteHeader wraps underlying WriteHeader method and
 // compresses if filters are satisfied.
 func (r *ResponseFilterWriter) WriteHeader(code int) {
+	// The decision is taken once: a second call (superfluous, net/http
+	// ignores it) must not re-run the filters on the rewritten header
+	// and switch to plain output in the middle of a gzip stream.
+	if r.statusCodeWritten {
+		return
+	}
+
 	// Determine if compression should be used or not.
 	r.shouldCompress = true
 	for _, filter := range r.filters {
